@@ -53,6 +53,8 @@ pub fn profile(name: &str) -> Profile {
             w: [3, 8, 0, 0, 3, 0, 6, 0, 0, 0], back_only: true, drain: false, depth: 2, ..base },
         "c10" => Profile { name: "c10", max_modes: 3, max_pats: 4, la_prob: 0.25, max_len: 60, min_ops: 10, max_ops: 100,
             w: [8, 0, 4, 4, 5, 2, 0, 0, 0, 0], start_offset: true, drain: false, depth: 2, ..base },
+        "drift" => Profile { name: "drift", max_modes: 2, max_pats: 4, la_prob: 0.1, max_len: 50, min_ops: 10, max_ops: 60,
+            w: [8, 0, 3, 3, 4, 1, 2, 0, 0, 0], start_offset: true, drain: false, depth: 2, ..base },
         "c11" => Profile { name: "c11", max_modes: 3, max_pats: 4, la_prob: 0.15, max_len: 50, min_ops: 10, max_ops: 80,
             w: [6, 0, 10, 2, 1, 2, 0, 0, 0, 0], drain: false, depth: 2, ..base },
         "c12" => Profile { name: "c12", max_modes: 3, max_pats: 4, la_prob: 0.15, max_len: 40, min_ops: 20, max_ops: 120,
@@ -257,6 +259,7 @@ pub fn record_one(b: &mut Batch, r: &mut StdRng, p: &Profile, modes: &[RealMode]
     }));
     let syms: Vec<char> = vec![];
     let mut w = World::new(&syms);
+    w.log_state = p.name == "drift";
     match built {
         Err(e) => {
             b.events.push(json!({"op": "panic", "during": "build", "msg": crate::exec::panic_msg(e)}));
@@ -305,7 +308,11 @@ fn drive(b: &mut Batch, r: &mut StdRng, p: &Profile, w: &mut World, n_modes: usi
             b.events.push(json!({"op": "panic", "during": "newiter", "msg": obs["panic"]}));
             return false;
         }
-        b.events.push(json!({"op": "newiter", "sc": 1, "inp": input_ids[ti], "off": off}));
+        let mut ne = json!({"op": "newiter", "sc": 1, "inp": input_ids[ti], "off": off});
+        if let Some(st) = obs.get("st") {
+            ne["st"] = st.clone();
+        }
+        b.events.push(ne);
         its.push(ItTrack { text: ti, peeked: vec![], hw: 0, max_off: text.len(), dead: false, pos });
         true
     };
@@ -394,7 +401,11 @@ fn drive(b: &mut Batch, r: &mut StdRng, p: &Profile, w: &mut World, n_modes: usi
             its[h].dead = true;
             break;
         }
-        b.events.push(logged(&obs));
+        let mut le = logged(&obs);
+        if let Some(st) = obs.get("st") {
+            le["st"] = st.clone();
+        }
+        b.events.push(le);
         // harness-side bookkeeping needed to stay inside the enabled calls of the specification
         match op {
             0 | 1 => {
